@@ -304,7 +304,7 @@ def check_power_dagger(ctx):
     m = repo.module(GATES).classes["Power"].methods["dagger"]
     ctx.analysed(m)
     rets = returned_exprs(m.node)
-    own = {"Dagger(self)"}
+    own = {"Dagger(self)", "Dagger(Power(self.wrapped_gate, self.exponent))"}
     reassoc = {"self.wrapped_gate.dagger.power(self.exponent)", "Power(self.wrapped_gate.dagger, self.exponent)"}
     guarded = any(isinstance(n, (ast.If, ast.IfExp)) and ("is_integer" in norm(n.test) or "isinstance(self.exponent, int)" in norm(n.test) or "% 1" in norm(n.test) or "int(self.exponent) == self.exponent" in norm(n.test)) for n in ast.walk(m.node))
     texts = {norm(r) for r in rets}
